@@ -180,23 +180,28 @@ impl BetTable {
 
         // Parse the rest of the table - data starts after extended header + BET header
         let data_start = 12 + std::mem::size_of::<BetHeader>();
-        let mut cursor = std::io::Cursor::new(&table_data[data_start..]);
+        let body = &table_data[data_start..];
+        let mut cursor = std::io::Cursor::new(body);
 
         // Read file flags
-        let mut file_flags = Vec::with_capacity(header.flag_count as usize);
+        // (the counts below come from the table header: reserve no more than the data can hold)
+        let mut file_flags = Vec::with_capacity((header.flag_count as usize).min(body.len() / 4));
         for _ in 0..header.flag_count {
             file_flags.push(cursor.read_u32::<LittleEndian>()?);
         }
 
         // Calculate sizes
-        let file_table_size =
-            (header.file_count as usize * header.table_entry_size as usize).div_ceil(8);
+        let file_table_size = (header.file_count as usize)
+            .checked_mul(header.table_entry_size as usize)
+            .map(|bits| bits.div_ceil(8))
+            .filter(|&size| size <= body.len())
+            .ok_or_else(|| Error::invalid_format("BET file table larger than the table data"))?;
         let mut file_table = vec![0u8; file_table_size];
         cursor.read_exact(&mut file_table)?;
 
         // Read BET hashes
         let hash_count = header.bet_hash_array_size / 8; // Each hash is 8 bytes
-        let mut bet_hashes = Vec::with_capacity(hash_count as usize);
+        let mut bet_hashes = Vec::with_capacity((hash_count as usize).min(body.len() / 8));
         for _ in 0..hash_count {
             bet_hashes.push(cursor.read_u64::<LittleEndian>()?);
         }
